@@ -148,14 +148,46 @@ func c14RingIndex(c *Ctx, rule string) {
 	if !r.Anchor(rule, "rtpreceiver.Receiver.{buffer,absPos}", bufF != nil && posF != nil) {
 		return
 	}
-	isMasked := func(v ssa.Value) bool {
-		bo, ok := v.(*ssa.BinOp)
-		if !ok || bo.Op != token.AND {
-			return false
+	// masked: x & (len(buffer)-1); a phi of masked values; or the result of a helper of the
+	// package all of whose returns are masked (the index computation extracted into a function)
+	var maskedAt func(v ssa.Value, depth int) bool
+	maskedAt = func(v ssa.Value, depth int) bool {
+		switch x := v.(type) {
+		case *ssa.BinOp:
+			if x.Op != token.AND {
+				return false
+			}
+			s := core.PathOf(x.Y)
+			return strings.Contains(s, "len(") && strings.Contains(s, ".buffer") && strings.Contains(s, "-1")
+		case *ssa.Phi:
+			if depth > 3 {
+				return false
+			}
+			for _, e := range x.Edges {
+				if !maskedAt(e, depth+1) {
+					return false
+				}
+			}
+			return len(x.Edges) > 0
+		case *ssa.Call:
+			cal := x.Call.StaticCallee()
+			if cal == nil || depth > 2 || cal.Signature.Results().Len() != 1 || core.FuncPkg(cal) == nil || core.Rel(core.FuncPkg(cal).Path()) != "pkg/rtpreceiver" {
+				return false
+			}
+			nret := 0
+			for _, b := range cal.Blocks {
+				if ret, ok := b.Instrs[len(b.Instrs)-1].(*ssa.Return); ok {
+					nret++
+					if !maskedAt(ret.Results[0], depth+1) {
+						return false
+					}
+				}
+			}
+			return nret > 0
 		}
-		s := core.PathOf(bo.Y)
-		return strings.Contains(s, "len(") && strings.Contains(s, ".buffer") && strings.Contains(s, "-1")
+		return false
 	}
+	isMasked := func(v ssa.Value) bool { return maskedAt(v, 0) }
 	n := 0
 	for _, fn := range p.SrcFuncs() {
 		pk := core.FuncPkg(fn)
